@@ -252,7 +252,7 @@ pub fn run(case: &Sx) -> Sx {
             match tag.as_str() {
                 "sni" => a2l.sort_new_items(),
                 "sort" => a2l.sort(),
-                "rt" => {}
+                "rt" | "wt" => {}
                 "push" => {
                     let e = dec_el(&o[2]);
                     push_el(&mut a2l.project.module[0], o[1].as_usize(), &e)
@@ -273,6 +273,13 @@ pub fn run(case: &Sx) -> Sx {
                 let idem = again.write_to_string() == text && again == a2l;
                 if let Sx::L(v) = &mut obs {
                     v.push(Sx::L(vec![Sx::b(reloaded.is_ok()), Sx::b(eq), Sx::b(same_text), Sx::b(idem)]));
+                }
+            }
+            if tag == "wt" {
+                // the complete text written from the model as it stands (C20: API-built elements in both builds)
+                let text = a2l.write_to_string();
+                if let Sx::L(v) = &mut obs {
+                    v.push(Sx::s(&text));
                 }
             }
             if tag == "rt" {
